@@ -48,6 +48,9 @@ class Interner:
 
 
 def z(n: int) -> str:
+    if not isinstance(n, int):
+        raise TypeError(f'not an integer: {n!r}')      # the op is ill-typed: no model counterpart (must be rejected, see compare)
+    n = int(n)      # JSON true / false are ints for the validator (isinstance(x, int)) and for every comparison the handlers make
     return f'({n})' if n < 0 else str(n)
 
 
@@ -57,6 +60,9 @@ def oz(v: Optional[int]) -> str:
 
 def zl(xs) -> str:
     return '[' + '; '.join(z(x) for x in xs) + ']'
+
+
+CLIENT_OPS = ('create_batch', 'create_update', 'create_groups', 'create_jobs', 'commit')
 
 
 def valid_cores(c) -> bool:
@@ -457,9 +463,10 @@ def _compare_plain(ctx, histories: List[List[dict]], results: List[List[dict]], 
     n_ops = 0
     suspects = []
     for hi, (h, ires, (mres, idx, it)) in enumerate(zip(histories, results, model_h)):
-        # ops without a model counterpart because of an invalid resource request: rejected, nothing changed
+        # ops without a model counterpart because of an invalid resource request, or because a client request is ill-typed (a
+        # fractional / boolean / string id, a missing field, ...): the implementation must reject them and change nothing
         for i, op in enumerate(h):
-            if isinstance(op, dict) and resource_invalid(op, world or DEFAULT_WORLD):
+            if isinstance(op, dict) and (resource_invalid(op, world or DEFAULT_WORLD) or (i not in set(idx) and op.get('op') in CLIENT_OPS)):
                 before = ires[i - 1]['obs'] if i > 0 else None
                 if 'err' not in ires[i]['result'] or (before is not None and ires[i]['obs'] is not None and ires[i]['obs'] != before):
                     out.setdefault(hi, []).append(Disagreement(
